@@ -7,6 +7,9 @@ NICE = [0., 45., -45., 90., 30., -30., 60., -60.]
 
 
 def fl(lo, hi, **kw):
+    # subnormal numbers are excluded from every generated quantity: no accuracy statement survives gradual underflow (a state of
+    # 1e-310 thicknesses gives forces of 1e-320 with one significant bit), and no engineering input lives there
+    kw.setdefault('allow_subnormal', False)
     return st.floats(min_value=lo, max_value=hi, allow_nan=False, allow_infinity=False, **kw)
 
 
